@@ -1,5 +1,218 @@
-(* C10 — placeholder while the correspondence is being established *)
-From Coq Require Import List NArith ZArith.
+(* C10 — files awaiting write-back are never deleted; cleanup removes exactly idle files.
+   Statements only; every proof is `exact <lemma from Proof/C10*.v>`.
+
+   Vocabulary (Model/C10.v): a store state s has the files on disk `dk s` (name -> mtime, size,
+   LAT sidecar, persist sidecar), the bounded LRU file map `fm s`, the clock `now s` and the map
+   capacity `cap s`. A file is "awaiting write-back" when its persist sidecar says true
+   (`is_persisted`). `stays n f s'` = file n is still on disk in s', still protected, with the
+   mtime and size of f. Histories are lists of operations (`run`), including cleanup passes whose
+   listing of names `scan` is arbitrary — a pass interleaved with other clients is the history
+   that splits it into passes over sub-listings. *)
+From Coq Require Import List NArith ZArith Bool.
+From K.Gen Require Import C10_consts.
 From K.Model Require Import C10.
-Example C10_placeholder : is_persisted (mkf 0 0 None (Some true)) = true.
+From K.Proof Require C10_base C10_pass C10_policy C10.
+Import ListNotations.
+Local Open Scope Z_scope.
+
+(* ---- clause 1: a protected file is never removed.
+   Over ALL histories of creates, reads, stats, sidecar changes, deletes, re-opens, LRU
+   evictions (inside every operation that loads an entry), TTL/TTI passes, aggressive passes,
+   policy passes, forced deletes — with any clock, capacity, configuration, disk usage, listing
+   and walk order — as long as no operation of the history ends n's protection on purpose
+   (SetPersist n false, ClearPersist n, or a forced delete of n whose write-back succeeded). *)
+Theorem C10_persisted_never_removed : forall ops s n f,
+  aget n (dk s) = Some f -> is_persisted f = true ->
+  (forall o, In o ops -> unprotects o n = false) ->
+  stays n f (fst (run s ops)).
+Proof. exact Proof.C10.persisted_never_removed_stmt. Qed.
+Print Assumptions C10_persisted_never_removed.
+
+(* ... by a delete request: refused with ErrFilePersisted *)
+Theorem C10_delete_request_refused : forall s n f,
+  aget n (dk s) = Some f -> is_persisted f = true ->
+  snd (step s (Delete n)) = ORes RPersisted /\ stays n f (fst (step s (Delete n))).
+Proof. exact Proof.C10.delete_refused_stmt. Qed.
+Print Assumptions C10_delete_request_refused.
+
+(* ... by LRU eviction of the file map *)
+Theorem C10_eviction_keeps_protected : forall s n f,
+  aget n (dk s) = Some f -> is_persisted f = true -> stays n f (evict s).
+Proof. exact Proof.C10.eviction_stmt. Qed.
+Print Assumptions C10_eviction_keeps_protected.
+
+(* ... by periodic or aggressive cleanup (cleanupManager.cleanup in any of its three modes) *)
+Theorem C10_cleanup_keeps_protected : forall s n f c pol u scan order,
+  aget n (dk s) = Some f -> is_persisted f = true ->
+  stays n f (fst (cleanup c pol u scan order s)).
+Proof. exact Proof.C10.cleanup_stmt. Qed.
+Print Assumptions C10_cleanup_keeps_protected.
+
+Theorem C10_ttl_pass_keeps_protected : forall s n f tti ttl thr u scan,
+  aget n (dk s) = Some f -> is_persisted f = true ->
+  stays n f (ttl_pass tti ttl thr u scan s).
+Proof. exact Proof.C10.ttl_pass_stmt. Qed.
+Print Assumptions C10_ttl_pass_keeps_protected.
+
+Theorem C10_policy_pass_keeps_protected : forall s n f thr total scan order,
+  aget n (dk s) = Some f -> is_persisted f = true ->
+  stays n f (fst (policy_pass thr total scan order s)).
+Proof. exact Proof.C10.policy_pass_stmt. Qed.
+Print Assumptions C10_policy_pass_keeps_protected.
+
+(* ... by forced cleanup (maybeDelete) unless every pending write-back ran to completion first *)
+Theorem C10_forced_cleanup_needs_writeback : forall s n f ttl owns,
+  aget n (dk s) = Some f -> is_persisted f = true ->
+  stays n f (fst (force_delete n ttl owns false s))
+  /\ snd (force_delete n ttl owns false s) <> ODel true false.
+Proof. exact Proof.C10.force_delete_stmt. Qed.
+Print Assumptions C10_forced_cleanup_needs_writeback.
+
+(* ---- clause 2: a normal pass removes exactly the unprotected idle-or-expired files.
+   For the state s reached by any history, when no LRU eviction can interfere (`roomy`: the map is
+   unbounded or has room for every file on disk — production capacity is 2^20 entries), for a
+   complete duplicate-free listing, and an idle limit of at least the clock's sub-second part
+   (LAT sidecars hold whole seconds): file m disappears iff it is not protected and
+   (ttl > 0 and now - mtime > ttl) or (it has a recorded last access l and now - l > tti). *)
+Theorem C10_cleanup_exact : forall c0 t0 ops c pol u scan order m f,
+  let s := fst (run (init c0 t0) ops) in
+  roomy (cap s) (dk s) = true -> NoDup scan -> should_aggro c u = false ->
+  (forall k, In k (keys (dk s)) -> In k scan) ->
+  now s mod NS <= c_tti c ->
+  aget m (dk s) = Some f ->
+  (aget m (dk (fst (cleanup c pol u scan order s))) = None <->
+   is_persisted f = false /\ ready (c_tti c) (c_ttl c) (now s) f = true).
+Proof. exact Proof.C10.cleanup_exact_stmt. Qed.
+Print Assumptions C10_cleanup_exact.
+
+(* the same for any listing and any clock, pointwise and including what happens to the files that
+   stay (`ttl_after`: a listed file without LAT sidecar that was not in the map gets one holding
+   the current time, nothing else changes) *)
+Theorem C10_cleanup_exact_pointwise : forall c0 t0 ops c pol u scan order m,
+  let s := fst (run (init c0 t0) ops) in
+  roomy (cap s) (dk s) = true -> NoDup scan -> should_aggro c u = false ->
+  aget m (dk (fst (cleanup c pol u scan order s))) = ttl_after (c_tti c) (c_ttl c) scan s m.
+Proof. exact Proof.C10.cleanup_exact_pointwise_stmt. Qed.
+Print Assumptions C10_cleanup_exact_pointwise.
+
+(* the `roomy` guard is needed: with more files on disk than map entries the scan itself evicts,
+   and a fresh, unprotected file is deleted by a pass that finds nothing idle *)
+Theorem C10_cleanup_exact_under_pressure_refuted :
+  exists ops tti ttl scan m f,
+    let s := fst (run (init 2 1000) ops) in
+    NoDup scan /\ (forall k, In k (keys (dk s)) -> In k scan) /\
+    aget m (dk s) = Some f /\ ttl_due tti ttl (now s) (amem m (fm s)) f = false /\
+    aget m (dk (ttl_pass tti ttl 0 None scan s)) = None.
+Proof. exact Proof.C10.exact_under_pressure_refuted. Qed.
+Print Assumptions C10_cleanup_exact_under_pressure_refuted.
+
+(* the defaults the periodic job applies (cleanup.go:48): idle limit 6 h, interval 30 min,
+   aggressive TTL 1 h — always positive *)
+Theorem C10_defaults : forall c,
+  0 <= c_tti c -> 0 <= c_interval c -> 0 <= c_attl c ->
+  let d := apply_defaults c in
+  0 < c_tti d /\ 0 < c_interval d /\ (c_athr d <> 0 -> 0 < c_attl d)
+  /\ (c_tti c = 0 -> c_tti d = 21600000000000)
+  /\ (c_interval c = 0 -> c_interval d = 1800000000000)
+  /\ (c_athr c <> 0 -> c_attl c = 0 -> c_attl d = 3600000000000).
+Proof. exact Proof.C10.defaults_positive. Qed.
+Print Assumptions C10_defaults.
+
+(* ---- clause 3: the usage-driven policy.
+   cachedInAgentPolicy is a total preorder (what slices.SortFunc needs) ... *)
+Theorem C10_policy_is_total_preorder :
+  (forall a b, policy_cmp a b <= 0 \/ policy_cmp b a <= 0) /\
+  (forall a b c, policy_cmp a b <= 0 -> policy_cmp b c <= 0 -> policy_cmp a c <= 0) /\
+  (forall a b, Z.sgn (policy_cmp a b) = - Z.sgn (policy_cmp b a)).
+Proof. exact Proof.C10.policy_total_preorder. Qed.
+Print Assumptions C10_policy_is_total_preorder.
+
+(* ... that deletes files served to consumers (|mtime - access| > 1 s; those with > 45 min first)
+   before the others, and within a class the least recently accessed first. The literals are the
+   ones written in cleanup.go (Gen/C10_consts.v). *)
+Theorem C10_policy_order : forall a b,
+  policy_cmp a b < 0 <->
+  (let ca := class_of (fi_download a) (fi_access a) in
+   let cb := class_of (fi_download b) (fi_access b) in
+   ca < cb \/ (ca = cb /\ fi_access a < fi_access b)).
+Proof. exact Proof.C10_policy.policy_cmp_lt. Qed.
+Print Assumptions C10_policy_order.
+
+(* a policy pass in the state reached by any history, whose walk the model accepts as a legal
+   result of sorting (duplicate-free, sorted, complete up to the budget): the walk is in rank
+   order, no candidate left out ranks strictly before a walked one and then the byte budget
+   (total - total*threshold/100) was met, the walk never continued with the budget met, and only
+   walked files disappeared (`chk_policy`, evaluated on the states before and after) *)
+Theorem C10_policy_pass_order_and_budget : forall c0 t0 ops thr tot scan order s',
+  let s := fst (run (init c0 t0) ops) in
+  NoDup scan ->
+  policy_pass thr (Some tot) scan order s = (s', OPass true false) ->
+  chk_policy (cap s) thr tot (now s) scan order (dk s) (keys (fm s)) (dk s') = true.
+Proof. exact Proof.C10.policy_pass_stmt2. Qed.
+Print Assumptions C10_policy_pass_order_and_budget.
+
+(* ---- the three clauses in executable form: the oracle evaluated by the harness on the
+   implementation's observed traces holds on every trace of the model *)
+Theorem C10_check_sound : forall c t0 ops,
+  forallb op_ok ops = true -> C10_check c t0 ops (snd (run (init c t0) ops)) = true.
+Proof. exact Proof.C10.check_sound. Qed.
+Print Assumptions C10_check_sound.
+
+(* ---- non-vacuity *)
+
+(* a protected file goes through eviction, restart, an aggressive pass, a policy pass, a refused
+   delete and a forced delete without write-back, and is still there; its unprotected neighbours
+   are gone *)
+Example C10_nonvacuous_protected :
+  let ops := [Create 0 10 1000; SetPersist 0 true; Create 1 10 1000; Create 2 10 1000;
+              Tick 7200000000000; Reopen; Stat 0;
+              TtlPass 3600000000000 3600000000000 50 (Some (mku 95 1000 900)) [0; 1; 2]%N;
+              Create 3 10 7200000001000; SetLat 3 7000;
+              PolicyPass 0 (Some 1000) [0; 3]%N [3; 0]%N;
+              Delete 0; ForceDelete 0 0 true false] in
+  let s := fst (run (init 2 1000) ops) in
+  (forallb (fun o => negb (unprotects o 0%N)) ops, keys (dk s), persisted 0%N (dk s))
+  = (true, [0%N], true).
+Proof. vm_compute. reflexivity. Qed.
+
+(* a normal pass with room in the map: the expired and the idle file go, the protected expired
+   one and the fresh one stay; all hypotheses of C10_cleanup_exact hold *)
+Example C10_nonvacuous_exact :
+  let ops := [Create 0 10 1000; Create 1 10 1000; SetPersist 1 true; Tick 90000000000;
+              Create 2 10 90000001000; Create 3 10 90000001000; SetLat 3 5] in
+  let s := fst (run (init 8 1000) ops) in
+  let c := mkcfg 0 60000000000 80000000000 0 0 0 in
+  let s' := fst (cleanup c false None [0; 1; 2; 3]%N [] s) in
+  (roomy (cap s) (dk s), should_aggro c None, now s mod NS <=? c_tti c,
+   map (fun m => amem m (dk s')) [0; 1; 2; 3]%N)
+  = (true, false, true, [false; true; true; false]).
+Proof. vm_compute. reflexivity. Qed.
+
+(* a policy pass: four candidates, budget 20 bytes: the surely-in-agent file goes first, then the
+   served one; the least recently accessed unserved one is not reached *)
+Example C10_nonvacuous_policy :
+  let ops := [Create 0 10 1000000000000; Create 1 10 1000000000000; Create 2 10 1000000000000;
+              Create 3 10 1000000000000; SetLat 1 1010; SetLat 2 4000; SetLat 3 1000;
+              Tick 3600000000000] in
+  let s := fst (run (init 0 1000000000000) ops) in
+  let r := policy_pass 98 (Some 1000) [0; 1; 2; 3]%N [2; 1]%N s in
+  (snd r, map (fun m => amem m (dk (fst r))) [0; 1; 2; 3]%N,
+   chk_policy (cap s) 98 1000 (now s) [0; 1; 2; 3]%N [2; 1]%N (dk s) (keys (fm s)) (dk (fst r)))
+  = (OPass true false, [true; false; false; true], true).
+Proof. vm_compute. reflexivity. Qed.
+
+(* the comparator separates the three classes *)
+Example C10_nonvacuous_order :
+  (policy_cmp (mkfi 0 5000000000000 1000000000000 1) (mkfi 1 1000000000000 1000000000000 1) <? 0,
+   policy_cmp (mkfi 0 5000000000000 1000000000000 1) (mkfi 1 1002000000000 1000000000000 1) <? 0,
+   policy_cmp (mkfi 0 1002000000000 1000000000000 1) (mkfi 1 1000000000000 1000000000000 1) <? 0,
+   policy_cmp (mkfi 0 1000000000000 1000000000000 1) (mkfi 1 1001000000000 1000000000000 1) <? 0)
+  = (true, true, true, true).
+Proof. vm_compute. reflexivity. Qed.
+
+(* the literals of the source this development was proved against *)
+Example C10_constants :
+  (cleanup_consumer_gap_ns, cleanup_agent_gap_ns, cleanup_default_interval_ns, cleanup_default_tti_ns,
+   cleanup_default_aggressive_ttl_ns, cleanup_ttl_guard, filemap_lat_resolution_ns, castore_default_capacity)
+  = (1000000000, 2700000000000, 1800000000000, 21600000000000, 3600000000000, 0, 300000000000, 1048576).
 Proof. vm_compute. reflexivity. Qed.
